@@ -3,6 +3,8 @@ package main
 import (
 	"fmt"
 	"go/token"
+	"go/types"
+	"sort"
 	"strings"
 	"unicode"
 
@@ -406,6 +408,63 @@ func c16r4(c *Ctx, id string) {
 		}
 	})
 	c.Check(len(bad) == 0 && n > 10, id, "nil-guard@"+fname(root), getObs.Pos(), fmt.Sprintf("all %d calls/sends of Collect are dominated by GetObservers()≠nil", n), "Collect acts while the stream may be closed (observers nil): "+strings.Join(bad, ", "))
+	// the guard means something: the open indicator (observers) becomes non-nil only after every piece of stream state
+	// that the collector reads behind the guard has been (re)assigned by the same lifecycle function
+	if obsField := w.Field("stream", "stream", "observers"); obsField != nil {
+		behind := map[*types.Var]string{}
+		for _, f := range fns {
+			allInstrs(f, func(in ssa.Instruction) {
+				cc := callOf(in)
+				if cc == nil || !cc.IsInvoke() || !strings.HasSuffix(types.TypeString(cc.Value.Type(), nil), "stream.Stream") {
+					return
+				}
+				getter := w.Method("stream", "stream", cc.Method.Name())
+				if getter == nil {
+					return
+				}
+				allInstrs(getter, func(gi ssa.Instruction) {
+					if fa, ok := gi.(*ssa.FieldAddr); ok {
+						if fv := structField(fa.X.Type(), fa.Field); fv != nil && fv != obsField && len(getter.Params) > 0 && fa.X == ssa.Value(getter.Params[0]) {
+							behind[fv] = cc.Method.Name()
+						}
+					}
+				})
+			})
+		}
+		nSites := 0
+		for _, fs := range w.fieldStores(obsField) {
+			if isNilConst(fs.Store.Val) {
+				continue
+			}
+			nSites++
+			var late []string
+			for fv, getter := range behind {
+				var stores []*ssa.Store
+				allInstrs(fs.Fn, func(in ssa.Instruction) {
+					if st, ok := in.(*ssa.Store); ok && fieldOfAddr(st.Addr) == fv {
+						stores = append(stores, st)
+					}
+				})
+				if len(stores) == 0 {
+					continue // assigned before this lifecycle function runs (construction)
+				}
+				ok := false
+				for _, st := range stores {
+					if dominatesInstr(st, fs.Store) {
+						ok = true
+					}
+				}
+				if !ok {
+					late = append(late, fv.Name()+" (read through "+getter+")")
+				}
+			}
+			sort.Strings(late)
+			c.Check(len(late) == 0, id, "ready-before-visible@"+fname(fs.Fn), fs.Store.Pos(), fmt.Sprintf("observers becomes non-nil only after the %d stream fields the collector reads behind its guard are assigned", len(behind)), "observers is made non-nil (the collector's only closed test passes) before "+strings.Join(late, ", ")+" is assigned: a scrape in between dereferences state of a stream that is not open yet")
+		}
+		if nSites == 0 || len(behind) == 0 {
+			c.Undecided(id, "ready-before-visible", root.Pos(), "no non-nil assignment of stream.observers / no stream state read by the collector found (%d sites, %d fields)", nSites, len(behind))
+		}
+	}
 	// offsets endpoint
 	for _, fn := range w.ModFuncs {
 		if fname(fn) != "(*api.api).offset" {
